@@ -16,7 +16,7 @@ RULE = (
     "slice was coded with qindex 0 (measured); distinct = distinct recipe hash; unjudged lossy cases are trivial"
 )
 ASSUMPTIONS = [
-    "depth <= 16 bits, regular frame sizes, small pictures (<= 16x16)",
+    "depth <= 16 bits for the bulk of the cases plus a stratum of 33-64 bit depths on <= 4x4 frames; regular frame sizes, small pictures (<= 16x16)",
     "the qindex of each slice is read from the encoder's description and cross-checked against the deserialised stream",
 ]
 CASE_TIMEOUT_S = 120
@@ -39,13 +39,27 @@ def cases(spec, ctx):
             ctx.count("slice_length_boundary_cases")
             yield {"recipe": configs.codelen_recipe(ctx.rng, ctx.rng.choice(BOUNDARY_LENGTHS))}
         k = ctx.rng.random()
-        if k < 0.6:
+        if k < 0.1:
+            # no transform at all: the decoder's synthesis is the identity here
+            space = {"lossless": "yes", "depth0": True, "max_dwt": 0}
+        elif k < 0.6:
             space = {"lossless": "yes"}
         elif k < 0.8:
             space = {"lossless": "no", "lossy_bytes": "roomy", "maxw": 8, "maxh": 8, "profiles": [3]}
         else:
             space = {"lossless": "no", "lossy_bytes": "roomy", "maxw": 8, "maxh": 8, "profiles": [0]}
+        deep = not space.get("depth0") and ctx.rng.random() < 0.06
+        if deep:
+            # very deep samples (up to 64 bits): coefficient magnitudes beyond what a double represents exactly
+            space = dict(space, max_depth_bits=64, maxw=4, maxh=4, max_slices=(2, 1))
         r = configs.random_recipe(ctx.rng, space)
+        if deep:
+            lo = ctx.rng.randrange(33, 65)
+            r["range"] = [0, (1 << lo) - 1, 1 << (lo - 1), (1 << lo) - 1]
+            if not r["lossless"]:
+                n = r["sx"] * r["sy"]
+                r["pb"] = n * (16 * 3 * (2 * lo + 8) // 8 + 64) * (2 if r["profile"] == 3 else 1)
+            ctx.count("deep_sample_cases")
         # extremes and noise matter most here
         r["pics"]["class"] = ctx.rng.choice(["noise", "noise", "checker", "max", "zero", "mixed", "ramp", "mid"])
         yield {"recipe": r}
@@ -109,6 +123,13 @@ def run_case(case, ctx):
     out = o.verdict.pictures
     if len(out) != len(pics):
         ctx.violation("picture-count", "decoded %d pictures for %d inputs" % (len(out), len(pics)))
+        return
+    changed = o.verdict.pictures_changed_after_output()
+    ctx.count("retained_picture_objects_rechecked", len(o.verdict.picture_refs))
+    if changed:
+        ctx.violation("returned-picture-changed-after-output",
+                      "picture objects %s handed to the output callback had different sample values once decoding finished (%s)"
+                      % (changed, configs.stratum(recipe)))
         return
     for i, (p, (d, _, _)) in enumerate(zip(pics, out)):
         for c in ("Y", "C1", "C2"):
